@@ -69,6 +69,36 @@ CHECKS = {
             "(spec/Score.tla) for every depth both completed (spec/SearchTrace.tla, event mirror_pair).",
             "explicit TLA+ spec + TLC behaviour generation; impl->spec trace validation", "5/C13",
             "Trusted: TLC; Mirror/Neg of the specification; sampled positions (BFS depth 1 from the root set), not all reachable ones."),
+    "C07": ("exploration",
+            "Preconditions of the unchecked operations are stated on the abstract position and model-checked by TLC over "
+            "BFS from extremal roots (EntryDemand <= 18 with roots that reach exactly 18, kings present, validity "
+            "inductive). The implementation is explored: every scenario of the framework (walks, iterator sequences, "
+            "parser/builder on ~200k arbitrary inputs, bitboards, text, the whole book, sliders, searches at every early "
+            "expiry instant, >65536 passes on O(1) trees, 1100-ply manoeuvres through the plugin) runs in a build with "
+            "debug assertions and overflow checks; any panic or abnormal exit is a violation.",
+            "explicit TLA+ spec + TLC for the preconditions; exploration of the implementation under an assertion-enabled build",
+            "5/C07", "Undefined behaviour that does not trap is not observable; 'all sequences of safe calls' is sampled."),
+    "C14": ("proof",
+            "The order is specified in spec/Score.tla and proved with TLAPS for all payloads (spec/ScoreProofs.tla: "
+            "irreflexive, asymmetric, transitive, total up to equality, layers, within-kind directions, Neg reverses). "
+            "The implementation's cmp/partial_cmp/==/</<=/>/>=/max/min are compared with the proved order on all pairs of "
+            "a grid of boundary and seeded payloads by TLC (spec/ScoreTrace.tla).",
+            "TLAPS proof of the specified order; pairwise TLC validation of the implementation against it", "5/C14",
+            "Trusted: tlapm and its back ends; Score.tla states the intended order; the implementation is bound on a finite grid."),
+    "C15": ("model_checking",
+            "The plugin is specified as a state machine over layer R (spec/BotTrace.tla: position + identities produced "
+            "since set_board). The real cdylib is loaded through chess_api and driven with legal/illegal moves, undo "
+            "moves and quiet shuffles that repeat positions, set_board in the middle, evaluate under counting limits; "
+            "TLC validates every call: applied iff legal, reported board = Apply, flag iff third occurrence, proposal legal.",
+            "explicit TLA+ spec + TLC; impl->spec trace validation through the real cdylib", "5/C15",
+            "Trusted: TLC; layer R; set_board's own position is not counted as an occurrence (reading of the property)."),
+    "C16": ("model_checking",
+            "Encodings specified in spec/Abi.tla (TLC ASSUMEs Dec(Enc(x)) = x and distinctness on all 20480 moves + none); "
+            "the opaque mirrors are observed by round trip: all moves through both mirrors, 'no move' with every score "
+            "kind, mate distances (all 2x65536 in thorough), numeric scores at extremes/around zero/seeded; TLC validates "
+            "each recorded result. Thinnest use of the technique (enumeration with the spec as domain and oracle).",
+            "explicit TLA+ spec + TLC; impl->spec validation of exhaustive round trips", "5/C16",
+            "Trusted: TLC; numeric scores sampled."),
     "C08": ("model_checking",
             "For every square TLC enumerates subsets of the square's own ray squares with the attack set obtained by ray "
             "casting in the specification (spec/Geometry.tla: RayAttack); the harness looks each up in the real magic "
